@@ -16,7 +16,8 @@ ASSUMPTIONS = ['cooperative scheduling only (see stubs)']
 
 # (wire payload, decoded payload) for MESSAGE packets
 PAY = (('hello', 'hello'), ('', ''), ('{"a":[1,"x"]}', {'a': [1, 'x']}), ('12', '12'), ('"s"', 's'), ('null', None),
-       ('true', 'true'), ('\xe9€', '\xe9€'), ('a b+c&d=e%20f', 'a b+c&d=e%20f'), ('{"k": "v w", "n": [1, 2]}', {'k': 'v w', 'n': [1, 2]}))
+       ('true', 'true'), ('\xe9€', '\xe9€'), ('a b+c&d=e%20f', 'a b+c&d=e%20f'), ('{"k": "v w", "n": [1, 2]}', {'k': 'v w', 'n': [1, 2]}),
+       ('{"t":"line\\nbreak"}', {'t': 'line\nbreak'}), ('C:\\new\\n', 'C:\\new\\n'))
 BIN = ('bAAH/', b'\x00\x01\xff')
 
 
@@ -97,6 +98,7 @@ def _dispatch_polling(fl, ah, pending, spec, form=False):
         n_before = len(sut.events)
         # (ASGI gateway: the body arrives in 1, 2 or 3 http.request events depending on the number of packets)
         sut.body_chunks = 1 + len(spec) % 3
+        sut.body_tail_empty = bool(pending)
         if form:
             # the form-encoded variant of the same body, as JSONP-polling browsers POST it (spaces as '+')
             import urllib.parse
@@ -455,7 +457,7 @@ def _mid(fl, ah, t0, k0, b, n, stage=0):
 
 def _refused(fl, kind, n, lim):
     """Bodies that must produce no message event at all."""
-    sut = mk(fl, async_handlers=False, max_http_buffer_size=lim if kind == 2 else 1000000)
+    sut = mk(fl, async_handlers=False, max_http_buffer_size=lim if kind in (2, 6) else 1000000)
     try:
         sut.open('polling')
         sut.settle()
@@ -471,6 +473,9 @@ def _refused(fl, kind, n, lim):
             r = sut.post(sid, '4' + 'x' * (lim + n), declared_len=lim + 1 + n)
         elif kind == 3:     # unknown session
             r = sut.post(sid + 'x', '4a\x1e4b')
+        elif kind == 6:     # a body longer than the size limit, sent without a Content-Length header (chunked upload)
+            sut.body_chunks = 1 + n % 3
+            r = sut.post(sid, '\x1e'.join(['4' + 'y' * lim, '4z', '4w'][:1 + n % 3]), declared_len='absent')
         elif kind == 5:     # more packets than the limit, form-encoded (JSONP polling) body
             import urllib.parse
             r = sut.post(sid, 'd=' + urllib.parse.quote('\x1e'.join(['4m%d' % i for i in range(17 + n)])), extra='&j=0')
@@ -495,7 +500,7 @@ def _refused(fl, kind, n, lim):
 @cond(quick=dict(timeout=120, parts=dict(FL=[0, 1])), thorough=dict(timeout=600, parts=dict(FL=[0, 1])))
 def refused_bodies(fl: int, kind: int, n: int, lim: int) -> str:
     """
-    pre: fl == P.FL and 0 <= kind <= 5 and 0 <= n <= 11 and 8 <= lim <= 12 and (kind == 2 or lim == 8)
+    pre: fl == P.FL and 0 <= kind <= 6 and 0 <= n <= 11 and 8 <= lim <= 12 and (kind == 2 or lim == 8)
     post: _ == ''
     """
     return verdict(_refused(fl, kind, n, lim))
